@@ -141,6 +141,11 @@ def h_stmt(rng, sid, names):
         cond = ["var", rng.choice(FLAGS)]
     elif g < 0.27:
         cond = ["and", ["var", FLAGS[0]], ["not", ["var", FLAGS[1]]]]
+    elif g < 0.36:
+        # a disjunction as the statement's own guard (holds although not all of its operands do)
+        cond = rng.choice([["or", ["var", FLAGS[0]], ["var", FLAGS[1]]],
+                           ["or", ["not", ["var", FLAGS[0]]], ["var", FLAGS[1]]],
+                           ["or", ["and", ["var", FLAGS[0]], ["var", FLAGS[1]]], ["not", ["var", FLAGS[1]]]]])
     k = rng.random()
     if k < 0.5:
         lhs = rng.choice(names)
